@@ -263,6 +263,8 @@ def export_binvox(voxel, axis_order="xzy"):
     scale = voxel.scale * (np.array(voxel.shape) - 1)
     (neg_scale,) = np.where(scale < 0)
     encoding = voxel.encoding.flip(neg_scale)
+    # index 0 of a flipped axis is the far end of the original grid
+    translate = translate + np.minimum(scale, 0)
     scale = np.abs(scale)
     if not util.allclose(scale[0], scale[1:], 1e-6 * scale[0] + 1e-8):
         raise ValueError("Can only export binvox with uniform scale")
